@@ -1,0 +1,637 @@
+//! Drop-in replacements for the `std` primitives used by the thread pool and
+//! the sample loop (only with `--cfg divan_verif`).
+//!
+//! `pool.rs` and `benchmark/mod.rs` contain one added line,
+//! `use crate::__verif::shim as std;`, so that `std::…` paths in those two
+//! files resolve here. Everything not overridden is re-exported from the real
+//! `std`. When the calling thread does not run under a scheduler
+//! (`super::sched`), every primitive behaves exactly like the real one (it
+//! delegates to it). Under a scheduler each operation is a yield point and has
+//! the documented semantics of the `std` primitive it replaces.
+
+#![allow(missing_docs)]
+
+pub use ::std::*;
+
+use super::sched::{self, Block, Sched};
+
+fn cur() -> Option<(::std::sync::Arc<Sched>, usize)> {
+    sched::current()
+}
+
+pub mod process {
+    pub use ::std::process::*;
+
+    /// Under a scheduler: records the abort and stops the thread forever
+    /// (production would have killed the process).
+    pub fn abort() -> ! {
+        match super::cur() {
+            None => ::std::process::abort(),
+            Some((sched, me)) => {
+                {
+                    let mut st = sched.locked();
+                    if st.failure.is_none() {
+                        st.failure = Some(super::sched::Failure::Abort(me));
+                    }
+                }
+                sched.notify();
+                // Never returns: the execution is abandoned.
+                let st = sched.locked();
+                drop(st);
+                sched.yield_point(me, true);
+                loop {
+                    ::std::thread::park();
+                }
+            }
+        }
+    }
+}
+
+pub mod thread {
+    pub use ::std::thread::*;
+
+    use super::{cur, Sched};
+
+    /// A handle to a thread: the real one, or a logical thread of a scheduler.
+    pub struct Thread {
+        serial: u64,
+        tid: usize,
+        real: Option<::std::thread::Thread>,
+    }
+
+    impl Thread {
+        pub fn unpark(&self) {
+            match cur() {
+                Some((sched, me)) if self.serial != 0 => {
+                    if sched.check_live(me, self.serial, "Thread", "unpark") {
+                        sched.unpark(me, self.tid);
+                    }
+                }
+                _ => {
+                    if let Some(real) = &self.real {
+                        real.unpark();
+                    }
+                }
+            }
+        }
+
+        pub fn id(&self) -> ::std::thread::ThreadId {
+            match &self.real {
+                Some(real) => real.id(),
+                None => ::std::thread::current().id(),
+            }
+        }
+
+        pub fn name(&self) -> Option<&str> {
+            self.real.as_ref().and_then(|r| r.name())
+        }
+    }
+
+    impl Clone for Thread {
+        fn clone(&self) -> Self {
+            match cur() {
+                Some((sched, me)) => {
+                    // Reads possibly stale memory: check before touching
+                    // anything but the serial.
+                    let serial = self.serial;
+                    if serial == 0 {
+                        return Thread { serial: 0, tid: 0, real: self.real.clone() };
+                    }
+                    if !sched.check_live(me, serial, "Thread", "clone") {
+                        return Thread { serial: 0, tid: usize::MAX, real: None };
+                    }
+                    Thread { serial: sched.register("Thread"), tid: self.tid, real: None }
+                }
+                None => Thread { serial: 0, tid: 0, real: self.real.clone() },
+            }
+        }
+    }
+
+    impl Drop for Thread {
+        fn drop(&mut self) {
+            if self.serial != 0 {
+                if let Some((sched, _)) = cur() {
+                    sched.retire(self.serial);
+                }
+            }
+        }
+    }
+
+    pub fn current() -> Thread {
+        match cur() {
+            Some((sched, me)) => Thread { serial: sched.register("Thread"), tid: me, real: None },
+            None => Thread { serial: 0, tid: 0, real: Some(::std::thread::current()) },
+        }
+    }
+
+    pub fn park() {
+        match cur() {
+            Some((sched, me)) => sched.park(me),
+            None => ::std::thread::park(),
+        }
+    }
+
+    pub struct Builder {
+        name: Option<String>,
+    }
+
+    impl Builder {
+        pub fn new() -> Self {
+            Builder { name: None }
+        }
+
+        pub fn name(mut self, name: String) -> Self {
+            self.name = Some(name);
+            self
+        }
+
+        pub fn spawn<F, T>(self, f: F) -> ::std::io::Result<::std::thread::JoinHandle<T>>
+        where
+            F: FnOnce() -> T + Send + 'static,
+            T: Send + 'static,
+        {
+            let mut builder = ::std::thread::Builder::new();
+            if let Some(name) = &self.name {
+                builder = builder.name(name.clone());
+            }
+            match cur() {
+                None => builder.spawn(f),
+                Some((sched, me)) => {
+                    sched.yield_point(me, false);
+                    let Some(tid) = sched.new_thread(me, self.name.clone().unwrap_or_default()) else {
+                        return Err(::std::io::Error::new(::std::io::ErrorKind::Other, "scheduler thread limit"));
+                    };
+                    let child_sched: ::std::sync::Arc<Sched> = sched.clone();
+                    builder.stack_size(512 * 1024).spawn(move || {
+                        child_sched.thread_start(tid);
+                        struct Exit(::std::sync::Arc<Sched>, usize);
+                        impl Drop for Exit {
+                            fn drop(&mut self) {
+                                self.0.thread_exit(self.1);
+                            }
+                        }
+                        let _exit = Exit(child_sched, tid);
+                        f()
+                    })
+                }
+            }
+        }
+    }
+}
+
+pub mod sync {
+    pub use ::std::sync::*;
+
+    use super::{cur, sched, Block};
+
+    pub mod atomic {
+        pub use ::std::sync::atomic::*;
+
+        use super::super::{cur, sched};
+
+        /// `AtomicUsize` whose operations are yield points and which takes
+        /// part in the liveness registry and the happens-before tracking.
+        pub struct AtomicUsize {
+            serial: u64,
+            real: ::std::sync::atomic::AtomicUsize,
+        }
+
+        fn is_acquire(o: Ordering) -> bool {
+            matches!(o, Ordering::Acquire | Ordering::AcqRel | Ordering::SeqCst)
+        }
+
+        fn is_release(o: Ordering) -> bool {
+            matches!(o, Ordering::Release | Ordering::AcqRel | Ordering::SeqCst)
+        }
+
+        impl AtomicUsize {
+            pub fn new(v: usize) -> Self {
+                let serial = match cur() {
+                    Some((sched, _)) => {
+                        let serial = sched.register("AtomicUsize");
+                        sched.with_state(|st| {
+                            st.atomics.insert(serial, [0; sched::MAX_THREADS]);
+                        });
+                        serial
+                    }
+                    None => 0,
+                };
+                AtomicUsize { serial, real: ::std::sync::atomic::AtomicUsize::new(v) }
+            }
+
+            /// `rmw`: read-modify-write (continues a release sequence).
+            fn scheduled<R>(&self, op: &'static str, order: Ordering, writes: bool, rmw: bool, dummy: R, f: impl FnOnce(&::std::sync::atomic::AtomicUsize) -> R) -> R {
+                match cur() {
+                    Some((sched, me)) if self.serial != 0 => {
+                        let serial = self.serial;
+                        sched.yield_point(me, false);
+                        if !sched.check_live(me, serial, "AtomicUsize", op) {
+                            return dummy;
+                        }
+                        // One global order: perform the real operation now.
+                        let r = f(&self.real);
+                        sched.with_state(|st| {
+                            st.tick(me);
+                            let obj = st.atomics.get(&serial).copied().unwrap_or([0; sched::MAX_THREADS]);
+                            if is_acquire(order) {
+                                st.join_into_thread(me, &obj);
+                            }
+                            if writes {
+                                let mine = st.vc(me);
+                                let new = if is_release(order) {
+                                    if rmw {
+                                        let mut j = obj;
+                                        sched::join(&mut j, &mine);
+                                        j
+                                    } else {
+                                        mine
+                                    }
+                                } else if rmw {
+                                    // A relaxed RMW continues the release sequence.
+                                    obj
+                                } else {
+                                    // A relaxed store starts a new, empty one.
+                                    [0; sched::MAX_THREADS]
+                                };
+                                st.atomics.insert(serial, new);
+                            }
+                        });
+                        r
+                    }
+                    _ => f(&self.real),
+                }
+            }
+
+            pub fn load(&self, order: Ordering) -> usize {
+                self.scheduled("load", order, false, false, 0, |a| a.load(Ordering::SeqCst))
+            }
+
+            pub fn store(&self, v: usize, order: Ordering) {
+                self.scheduled("store", order, true, false, (), |a| a.store(v, Ordering::SeqCst))
+            }
+
+            pub fn fetch_sub(&self, v: usize, order: Ordering) -> usize {
+                self.scheduled("fetch_sub", order, true, true, usize::MAX, |a| a.fetch_sub(v, Ordering::SeqCst))
+            }
+
+            pub fn fetch_add(&self, v: usize, order: Ordering) -> usize {
+                self.scheduled("fetch_add", order, true, true, 0, |a| a.fetch_add(v, Ordering::SeqCst))
+            }
+
+            pub fn compare_exchange(&self, current: usize, new: usize, success: Ordering, _failure: Ordering) -> Result<usize, usize> {
+                self.scheduled("compare_exchange", success, true, true, Err(usize::MAX), |a| a.compare_exchange(current, new, Ordering::SeqCst, Ordering::SeqCst))
+            }
+        }
+
+        impl Drop for AtomicUsize {
+            fn drop(&mut self) {
+                if self.serial != 0 {
+                    if let Some((sched, _)) = cur() {
+                        sched.retire(self.serial);
+                    }
+                }
+            }
+        }
+    }
+
+    // ----- Mutex
+
+    pub struct Mutex<T> {
+        real: ::std::sync::Mutex<T>,
+    }
+
+    pub struct MutexGuard<'a, T> {
+        real: Option<::std::sync::MutexGuard<'a, T>>,
+        key: usize,
+    }
+
+    impl<T> Mutex<T> {
+        pub const fn new(t: T) -> Self {
+            Mutex { real: ::std::sync::Mutex::new(t) }
+        }
+
+        pub fn lock(&self) -> Result<MutexGuard<'_, T>, PoisonError<MutexGuard<'_, T>>> {
+            let key = self as *const Self as usize;
+            if let Some((sched, me)) = cur() {
+                sched.yield_point(me, false);
+                loop {
+                    let mut st = sched.locked();
+                    if st.failure.is_some() {
+                        drop(st);
+                        sched.yield_point(me, std::thread::panicking());
+                        break;
+                    }
+                    match st.mutex_owner.get(&key) {
+                        None => {
+                            st.mutex_owner.insert(key, me);
+                            st.tick(me);
+                            if let Some(vc) = st.mutex_vc.get(&key).copied() {
+                                st.join_into_thread(me, &vc);
+                            }
+                            break;
+                        }
+                        Some(_) => {
+                            drop(sched.block(st, me, Block::Mutex(key)));
+                        }
+                    }
+                }
+            }
+            match self.real.lock() {
+                Ok(g) => Ok(MutexGuard { real: Some(g), key }),
+                Err(p) => Err(PoisonError::new(MutexGuard { real: Some(p.into_inner()), key })),
+            }
+        }
+    }
+
+    impl<T> ::std::ops::Deref for MutexGuard<'_, T> {
+        type Target = T;
+        fn deref(&self) -> &T {
+            self.real.as_ref().unwrap()
+        }
+    }
+
+    impl<T> ::std::ops::DerefMut for MutexGuard<'_, T> {
+        fn deref_mut(&mut self) -> &mut T {
+            self.real.as_mut().unwrap()
+        }
+    }
+
+    impl<T> Drop for MutexGuard<'_, T> {
+        fn drop(&mut self) {
+            // Release the real lock first, then the scheduler's ownership.
+            self.real.take();
+            if let Some((sched, me)) = cur() {
+                let key = self.key;
+                sched.with_state(|st| {
+                    if st.mutex_owner.get(&key) == Some(&me) {
+                        st.mutex_owner.remove(&key);
+                        st.tick(me);
+                        let vc = st.vc(me);
+                        st.mutex_vc.insert(key, vc);
+                        for t in 0..st.thread_count() {
+                            if st.blocked_on(t) == Some(Block::Mutex(key)) {
+                                st.wake(t);
+                            }
+                        }
+                    }
+                });
+            }
+        }
+    }
+
+    // ----- Barrier
+
+    pub struct Barrier {
+        serial: u64,
+        real: ::std::sync::Barrier,
+    }
+
+    pub struct BarrierWaitResult(bool);
+
+    impl BarrierWaitResult {
+        pub fn is_leader(&self) -> bool {
+            self.0
+        }
+    }
+
+    impl Barrier {
+        pub fn new(n: usize) -> Self {
+            let serial = match cur() {
+                Some((sched, _)) => sched.with_state(|st| {
+                    let serial = st.new_serial("Barrier");
+                    st.barriers.insert(serial, sched::BarrierState { n, arrived: Vec::with_capacity(n), vc: [0; sched::MAX_THREADS], generation: 0 });
+                    serial
+                }),
+                None => 0,
+            };
+            Barrier { serial, real: ::std::sync::Barrier::new(n) }
+        }
+
+        pub fn wait(&self) -> BarrierWaitResult {
+            match cur() {
+                Some((sched, me)) if self.serial != 0 => {
+                    let serial = self.serial;
+                    sched.yield_point(me, false);
+                    if !sched.check_live(me, serial, "Barrier", "wait") {
+                        return BarrierWaitResult(false);
+                    }
+                    let mut st = sched.locked();
+                    st.tick(me);
+                    let my_vc = st.vc(me);
+                    let (full, generation) = {
+                        let b = st.barriers.get_mut(&serial).unwrap();
+                        sched::join(&mut b.vc, &my_vc);
+                        b.arrived.push(me);
+                        (b.arrived.len() >= b.n, b.generation)
+                    };
+                    if full {
+                        let (arrived, vc) = {
+                            let b = st.barriers.get_mut(&serial).unwrap();
+                            let arrived = ::std::mem::take(&mut b.arrived);
+                            let vc = b.vc;
+                            b.vc = [0; sched::MAX_THREADS];
+                            b.generation += 1;
+                            (arrived, vc)
+                        };
+                        for t in arrived {
+                            st.join_into_thread(t, &vc);
+                            if t != me {
+                                st.wake(t);
+                            }
+                        }
+                        BarrierWaitResult(true)
+                    } else {
+                        let st = sched.block(st, me, Block::Barrier(serial));
+                        let _ = generation;
+                        drop(st);
+                        BarrierWaitResult(false)
+                    }
+                }
+                _ => BarrierWaitResult(self.real.wait().is_leader()),
+            }
+        }
+    }
+
+    impl Drop for Barrier {
+        fn drop(&mut self) {
+            if self.serial != 0 {
+                if let Some((sched, _)) = cur() {
+                    sched.retire(self.serial);
+                    sched.with_state(|st| {
+                        st.barriers.remove(&self.serial);
+                    });
+                }
+            }
+        }
+    }
+
+    // ----- rendezvous channel
+
+    pub mod mpsc {
+        pub use ::std::sync::mpsc::{RecvError, SendError};
+
+        use super::super::{cur, sched, Block};
+
+        struct Shared<T> {
+            serial: u64,
+            slot: ::std::sync::Mutex<Option<T>>,
+        }
+
+        pub struct SyncSender<T> {
+            real: Option<::std::sync::mpsc::SyncSender<T>>,
+            shared: Option<::std::sync::Arc<Shared<T>>>,
+        }
+
+        pub struct Receiver<T> {
+            real: Option<::std::sync::mpsc::Receiver<T>>,
+            shared: Option<::std::sync::Arc<Shared<T>>>,
+        }
+
+        /// Only capacity 0 (rendezvous) is modelled under a scheduler.
+        pub fn sync_channel<T>(bound: usize) -> (SyncSender<T>, Receiver<T>) {
+            match cur() {
+                Some((sched, _)) if bound == 0 => {
+                    let serial = sched.with_state(|st| {
+                        let serial = st.new_serial("Channel");
+                        st.chans.insert(serial, sched::Chan { slot_full: false, senders: 1, receiver_alive: true, vc: [0; sched::MAX_THREADS], waiting_sender: None });
+                        serial
+                    });
+                    let shared = ::std::sync::Arc::new(Shared { serial, slot: ::std::sync::Mutex::new(None) });
+                    (SyncSender { real: None, shared: Some(shared.clone()) }, Receiver { real: None, shared: Some(shared) })
+                }
+                _ => {
+                    let (s, r) = ::std::sync::mpsc::sync_channel(bound);
+                    (SyncSender { real: Some(s), shared: None }, Receiver { real: Some(r), shared: None })
+                }
+            }
+        }
+
+        impl<T> SyncSender<T> {
+            pub fn send(&self, value: T) -> Result<(), SendError<T>> {
+                let (Some(shared), Some((sched, me))) = (&self.shared, cur()) else {
+                    return match &self.real {
+                        Some(real) => real.send(value),
+                        None => Err(SendError(value)),
+                    };
+                };
+                let serial = shared.serial;
+                sched.yield_point(me, false);
+                let mut st = sched.locked();
+                if st.failure.is_some() {
+                    drop(st);
+                    sched.yield_point(me, std::thread::panicking());
+                    return Err(SendError(value));
+                }
+                let Some(chan) = st.chans.get_mut(&serial) else { return Err(SendError(value)) };
+                if !chan.receiver_alive {
+                    return Err(SendError(value));
+                }
+                // Offer the value and wait until the receiver took it.
+                *shared.slot.lock().unwrap_or_else(|e| e.into_inner()) = Some(value);
+                chan.slot_full = true;
+                chan.waiting_sender = Some(me);
+                st.tick(me);
+                let my_vc = st.vc(me);
+                let chan = st.chans.get_mut(&serial).unwrap();
+                chan.vc = my_vc;
+                for t in 0..st.thread_count() {
+                    if st.blocked_on(t) == Some(Block::Recv(serial)) {
+                        st.wake(t);
+                    }
+                }
+                let st = sched.block(st, me, Block::Send(serial));
+                // Woken either because the value was taken or because the
+                // receiver disappeared.
+                let taken = st.chans.get(&serial).map(|c| !c.slot_full).unwrap_or(false);
+                drop(st);
+                if taken {
+                    Ok(())
+                } else {
+                    match shared.slot.lock().unwrap_or_else(|e| e.into_inner()).take() {
+                        Some(v) => Err(SendError(v)),
+                        None => Ok(()),
+                    }
+                }
+            }
+        }
+
+        impl<T> Drop for SyncSender<T> {
+            fn drop(&mut self) {
+                if let (Some(shared), Some((sched, _))) = (&self.shared, cur()) {
+                    let serial = shared.serial;
+                    sched.with_state(|st| {
+                        let mut wake = false;
+                        if let Some(chan) = st.chans.get_mut(&serial) {
+                            chan.senders = chan.senders.saturating_sub(1);
+                            wake = chan.senders == 0;
+                        }
+                        if wake {
+                            for t in 0..st.thread_count() {
+                                if st.blocked_on(t) == Some(Block::Recv(serial)) {
+                                    st.wake(t);
+                                }
+                            }
+                        }
+                    });
+                }
+            }
+        }
+
+        impl<T> Receiver<T> {
+            pub fn recv(&self) -> Result<T, RecvError> {
+                let (Some(shared), Some((sched, me))) = (&self.shared, cur()) else {
+                    return match &self.real {
+                        Some(real) => real.recv(),
+                        None => Err(RecvError),
+                    };
+                };
+                let serial = shared.serial;
+                sched.yield_point(me, false);
+                loop {
+                    let mut st = sched.locked();
+                    if st.failure.is_some() {
+                        drop(st);
+                        sched.yield_point(me, std::thread::panicking());
+                        return Err(RecvError);
+                    }
+                    let Some(chan) = st.chans.get_mut(&serial) else { return Err(RecvError) };
+                    if chan.slot_full {
+                        chan.slot_full = false;
+                        let sender = chan.waiting_sender.take();
+                        let vc = chan.vc;
+                        st.tick(me);
+                        st.join_into_thread(me, &vc);
+                        if let Some(s) = sender {
+                            st.wake(s);
+                        }
+                        drop(st);
+                        let value = shared.slot.lock().unwrap_or_else(|e| e.into_inner()).take();
+                        return value.ok_or(RecvError);
+                    }
+                    if chan.senders == 0 {
+                        return Err(RecvError);
+                    }
+                    drop(sched.block(st, me, Block::Recv(serial)));
+                }
+            }
+        }
+
+        impl<T> Drop for Receiver<T> {
+            fn drop(&mut self) {
+                if let (Some(shared), Some((sched, _))) = (&self.shared, cur()) {
+                    let serial = shared.serial;
+                    sched.with_state(|st| {
+                        let mut sender = None;
+                        if let Some(chan) = st.chans.get_mut(&serial) {
+                            chan.receiver_alive = false;
+                            sender = chan.waiting_sender;
+                        }
+                        if let Some(s) = sender {
+                            st.wake(s);
+                        }
+                    });
+                }
+            }
+        }
+    }
+}
